@@ -450,7 +450,7 @@ Lemma display_base_fixed w n : std_width w -> 0 < n ->
   exists base, match f_from_uint w n 8 10 with Ok b => Ok (XF w b) | _ => Panic end = Ok base /\
                Good base /\ val base = 10.
 Proof.
-  intros Hw Hn. destruct (f_from_uint_spec w n 8 10 (std_width_pos w Hw) Hn eq_refl) as [_ H].
+  intros Hw Hn. destruct (f_from_uint_spec w n 8 10 (std_width_pos w Hw) eq_refl) as [_ H].
   destruct H as (r & -> & Hc & _ & _ & Hr).
   - change (N.size 10) with 4. pose proof (std_width_ge8 w Hw).
     apply N.le_trans with (8 * 1); [lia|]. apply N.mul_le_mono; lia.
